@@ -313,6 +313,10 @@ def _mutators(f, live, r, assumed=None):
     return out
 
 
+RESULT_OK_FIELDS = {"ok", "passed", "success", "matched", "accepted", "matches", "is_ok"}
+RESULT_MSG_FIELDS = {"message", "msg", "error", "reason", "failure", "why"}
+
+
 def _result_fact(test, truth, resvars):
     """Translate a branch outcome into (var, 'accept'|'reject') if the test is about a
     result variable of the mutating call; None if unrelated; raise if unrecognised."""
@@ -325,6 +329,17 @@ def _result_fact(test, truth, resvars):
     if not mentioned:
         return None
     val = truth != neg
+    # a small result record: `res.ok` / `res.passed` (truthy = accept), `res.message` / `res.error` (truthy = reject)
+    if isinstance(t, ast.Attribute) and isinstance(t.value, ast.Name) and t.value.id in resvars:
+        if t.attr in RESULT_OK_FIELDS:
+            return (t.value.id, "accept" if val else "reject")
+        if t.attr in RESULT_MSG_FIELDS:
+            return (t.value.id, "reject" if val else "accept")
+        return None
+    if isinstance(t, ast.Compare) and len(t.ops) == 1 and isinstance(t.left, ast.Attribute) and isinstance(t.left.value, ast.Name) and t.left.value.id in resvars \
+            and t.left.attr in RESULT_MSG_FIELDS and isinstance(t.comparators[0], ast.Constant) and t.comparators[0].value == "" and isinstance(t.ops[0], (ast.Eq, ast.NotEq)):
+        eq = isinstance(t.ops[0], ast.Eq)
+        return (t.left.value.id, "accept" if (val == eq) else "reject")
     if isinstance(t, ast.Name) and t.id in resvars:
         kind = resvars[t.id]
         # bool convention: truthy = accept.  str convention: truthy (non-empty) = reject
@@ -367,6 +382,8 @@ def _verdict_of_return(ret: ast.Return, facts: dict, resvars, convention):
         return "reject"
     if isinstance(v, ast.Name) and v.id in resvars:
         return facts.get(v.id, "unknown")
+    if isinstance(v, ast.Attribute) and isinstance(v.value, ast.Name) and v.value.id in resvars and v.attr in RESULT_OK_FIELDS | RESULT_MSG_FIELDS:
+        return facts.get(v.value.id, "unknown")  # `return res.message` / `return res.ok`: the verdict the record carries
     return "unknown"
 
 
@@ -651,12 +668,24 @@ def _rollback_typestate(m, r, f, g, muts, restore_calls):
         node_mut[n.id], node_restore[n.id] = has_m, has_r
 
     NORMAL = ("n", "t", "f", "loop", "done", "ret", "brk", "cont", "caught")
+    reads_result_only = set()
+    for n in g.live_nodes():
+        if n.kind not in ("test", "return", "stmt") or n.ast is None:
+            continue
+        asts_ = node_eval_asts(n)
+        risky = [x for a_ in asts_ for x in ast.walk(a_) if isinstance(x, (ast.Call, ast.Subscript, ast.BinOp, ast.Await, ast.Yield, ast.YieldFrom, ast.FormattedValue,
+                                                                            ast.ListComp, ast.SetComp, ast.DictComp, ast.GeneratorExp, ast.Starred))]
+        attrs = [x for a_ in asts_ for x in ast.walk(a_) if isinstance(x, ast.Attribute)]
+        if not risky and attrs and all(isinstance(x.value, ast.Name) and x.value.id in resvars and x.attr in RESULT_OK_FIELDS | RESULT_MSG_FIELDS for x in attrs):
+            reads_result_only.add(n.id)
 
     def transfer(node, st, kind, succ):
         phase, facts = st
         fd = dict(facts)
         if node.id in quiet_exit and kind not in NORMAL:
             return ()
+        if kind not in NORMAL and node.id in reads_result_only:
+            return ()  # `if not res.ok:` -- reading a field of the check's own result record is not a modelled fault
         # assignments invalidate facts about the assigned variable (on the normal edge:
         # when the statement raises, the assignment did not happen)
         if node.kind == "stmt" and isinstance(node.ast, ast.Assign) and kind in NORMAL:
@@ -726,6 +755,9 @@ def _rollback_typestate(m, r, f, g, muts, restore_calls):
             continue
         seen_ret.add((n.id, phase, verdict))
         if True:
+            if phase == "dirty" and verdict == "unknown":
+                raise AnalysisError(f"{f.qualname}: `{short(n.ast, 50)}` is reached with the bindings of the check in place; whether it hands back an accepting or a "
+                                    "rejecting verdict could not be determined (the result of the check is carried in a form the rule does not interpret)")
             if phase == "dirty" and verdict != "accept":
                 ok = False
                 _found("C04.1", f, n.ast,
